@@ -118,7 +118,7 @@ def run(ctx):
                               match="%s:%s" % (clause, detail.get("detector")))
     ctx.extra["mismatches_by_detector"] = {"%s/%s" % k: v for k, v in seen.items()}
     # ---- growth beyond C03: Kneedle without smoothing on ALL small integer curves (notes only)
-    growth.kneedle(ctx)
+    growth.safe(ctx, growth.kneedle)
 
 
 def replay(ctx, obj):
